@@ -11,6 +11,7 @@ import (
 	"hash/fnv"
 	"os"
 	"path/filepath"
+	"runtime/debug"
 	"sort"
 	"strconv"
 	"strings"
@@ -292,6 +293,9 @@ func safely(f func() error) (err error) {
 	defer func() {
 		if r := recover(); r != nil {
 			err = fmt.Errorf("panic: %v", r)
+			if os.Getenv("VERIF_TRACE") != "" {
+				fmt.Printf("TRACE %v\n%s\n", r, debug.Stack())
+			}
 		}
 	}()
 	return f()
